@@ -40,6 +40,10 @@ pub struct CallShadow {
     /// smallest margin of a threshold / usability decision in this call
     pub min_gate_margin: f64,
     pub threshold: f64,
+    /// magnitude of the quantities the claim weights are differences of (1 for cosine
+    /// similarities, the largest distance of the call for Euclidean distances): the f32 rounding
+    /// of a weight is proportional to this, not to the weight itself
+    pub weight_scale: f64,
 }
 
 pub fn dist_2r(a: &UB, b: &UB) -> f64 {
@@ -206,7 +210,8 @@ pub fn shadow_call(cfg: &Cfg, views: &[TrackView], scene: u64, epoch: usize, det
     } else {
         claims = vec![vec![None; cols.len()]; dets.len()];
     }
-    CallShadow { cols: cols.iter().map(|v| v.id).collect(), views: cols.into_iter().cloned().collect(), pos, claims, usable, min_gate_margin: min_margin, threshold: thr }
+    let weight_scale = if cfg.vis.cosine { 1.0 } else { all_items.iter().fold(0.0f64, |m, x| m.max(x.2.abs())).max(1e-9) };
+    CallShadow { cols: cols.iter().map(|v| v.id).collect(), views: cols.into_iter().cloned().collect(), pos, claims, usable, min_gate_margin: min_margin, threshold: thr, weight_scale }
 }
 
 impl CallShadow {
@@ -240,22 +245,34 @@ impl CallShadow {
     /// Smallest margin among appearance decisions: two claimants of one track, or the two best
     /// claims of one detection (relative to the weights).
     pub fn claim_margin(&self) -> f64 {
+        // A weight is a sum over the votes of (largest distance of the call - distance): two
+        // weights can be told apart only if they differ by more than the f32 rounding of those
+        // distances, which scales with the distances (and the number of votes), not with the
+        // weights - close look-alikes have weights of 1e-4 that differ by 5e-8 (a "relative
+        // margin" of 2.6e-4 that f32 cannot resolve).
         let mut m = f64::INFINITY;
         let n = self.claims.len();
         let k = self.cols.len();
+        let scale = self.weight_scale;
+        let sep = |a: &Claim, b: &Claim| -> f64 {
+            let d = (a.weight - b.weight).abs();
+            let rel = d / a.weight.abs().max(b.weight.abs()).max(1e-9);
+            let abs = d / (scale * a.votes.max(b.votes).max(1) as f64);
+            rel.min(abs)
+        };
         for c in 0..k {
-            let ws: Vec<f64> = (0..n).filter_map(|i| self.claims[i][c].as_ref().map(|x| x.weight)).collect();
+            let ws: Vec<&Claim> = (0..n).filter_map(|i| self.claims[i][c].as_ref()).collect();
             for a in 0..ws.len() {
                 for b in a + 1..ws.len() {
-                    m = m.min((ws[a] - ws[b]).abs() / ws[a].abs().max(ws[b].abs()).max(1e-9));
+                    m = m.min(sep(ws[a], ws[b]));
                 }
             }
         }
         for i in 0..n {
-            let ws: Vec<f64> = (0..k).filter_map(|c| self.claims[i][c].as_ref().map(|x| x.weight)).collect();
+            let ws: Vec<&Claim> = (0..k).filter_map(|c| self.claims[i][c].as_ref()).collect();
             for a in 0..ws.len() {
                 for b in a + 1..ws.len() {
-                    m = m.min((ws[a] - ws[b]).abs() / ws[a].abs().max(ws[b].abs()).max(1e-9));
+                    m = m.min(sep(ws[a], ws[b]));
                 }
             }
         }
